@@ -367,13 +367,13 @@ PROGRAM_ADV = [v for v in ADV_NUMBERS if not (isinstance(v, int) and abs(v) > 2 
 
 def plan(tier):
     k = 5 if tier == 'quick' else 16
-    specs = [{'kind': 'expr', 'n': 2500 if tier == 'quick' else 60000, 'k': i} for i in range(k)]
+    specs = [{'kind': 'expr', 'n': 6000 if tier == 'quick' else 60000, 'k': i} for i in range(k)]
     names = sorted(n for n in impl.bs.SCRIPT_FUNCTIONS if n not in c12.EXCLUDED)
     kk = 6 if tier == 'quick' else 16
-    specs += [{'kind': 'calls', 'n': 900 if tier == 'quick' else 30000, 'k': i, 'names': names[i::kk]} for i in range(kk)]
+    specs += [{'kind': 'calls', 'n': 2500 if tier == 'quick' else 30000, 'k': i, 'names': names[i::kk]} for i in range(kk)]
     specs += [{'kind': 'host', 'n': 1200 if tier == 'quick' else 20000, 'k': 0}]
     specs += [{'kind': 'recursion', 'part': i, 'parts': 3} for i in range(3)]
-    specs += [{'kind': 'programs', 'n': 500 if tier == 'quick' else 10000, 'k': i} for i in range(4 if tier == 'quick' else 8)]
+    specs += [{'kind': 'programs', 'n': 1000 if tier == 'quick' else 10000, 'k': i} for i in range(4 if tier == 'quick' else 8)]
     return specs
 
 
